@@ -22,24 +22,43 @@ func ruleEveryEntrySeen(c *core.Ctx, rule string) {
 	}
 	n, loops := 0, 0
 	for _, fn := range c.P.Funcs {
-		if fn.Name() != "Process" || fn.Signature.Recv() == nil || fn.Parent() != nil || len(fn.Blocks) == 0 || !hasErrorResult(fn.Signature) || len(fn.Params) != 2 {
+		if fn.Parent() != nil || len(fn.Blocks) == 0 || !hasErrorResult(fn.Signature) {
 			continue
 		}
-		pt, ok := fn.Params[1].Type().(*types.Pointer)
-		if !ok || !types.Identical(pt.Elem(), lnT) {
+		// Process itself, and every helper with an error result that is handed the day's record (selectFood(ln))
+		lns := map[*ssa.Parameter]bool{}
+		isProcess := fn.Name() == "Process" && fn.Signature.Recv() != nil && len(fn.Params) == 2
+		for i, prm := range fn.Params {
+			if isProcess && i != 1 {
+				continue
+			}
+			t := prm.Type()
+			if pt, ok := t.(*types.Pointer); ok {
+				t = pt.Elem()
+			}
+			if types.Identical(t, lnT) {
+				lns[prm] = true
+			}
+			// a helper may be handed one of the day's lists instead of the record (writeNotes(ln.Metadata))
+			if nt, ok := t.(*types.Named); ok && !isProcess && nt.Obj().Pkg() != nil && nt.Obj().Pkg().Path() == core.LibPath && (nt.Obj().Name() == "Elements" || nt.Obj().Name() == "Metadata") {
+				lns[prm] = true
+			}
+		}
+		if len(lns) == 0 || (!isProcess && !calledFromProcess(c.P, fn, lnT)) {
 			continue
 		}
-		n++
+		if isProcess {
+			n++
+		}
 		fname := core.FuncName(fn)
 		pos := c.P.Pos(fn.Pos())
 		c.Universe(rule+" Process methods", fname+" ("+pos+")")
-		ln := fn.Params[1]
 		// the day's lists: ln.Elements, *ln.Metadata — anything read out of the record itself
 		var isEntries func(v ssa.Value) bool
 		isEntries = func(v ssa.Value) bool {
 			switch t := v.(type) {
 			case *ssa.Parameter:
-				return t == ln
+				return lns[t]
 			case *ssa.UnOp:
 				return t.Op == token.MUL && isEntries(t.X)
 			case *ssa.FieldAddr:
@@ -109,7 +128,11 @@ func ruleEveryEntrySeen(c *core.Ctx, rule string) {
 					if ret, ok := soleReturn(s); ok {
 						res := ret.Results[len(ret.Results)-1]
 						if cst, isC := res.(*ssa.Const); !isC || !cst.IsNil() {
-							continue // hands back an error value
+							if madeError(res) || len(s.Preds) != 1 || !writesBeforeReturn(s) {
+								continue // hands back an error value
+							}
+							bad = append(bad, where+": the loop over the day's entries is left by returning whatever the last write reported, also when that is no error: the entries after the current one are never looked at")
+							continue
 						}
 						bad = append(bad, where+": return nil from inside the loop over the day's entries: the entries after the current one are never looked at, so they are missing from this report while the other reports count them")
 						continue
@@ -177,4 +200,208 @@ func soleReturn(b *ssa.BasicBlock) (*ssa.Return, bool) {
 		}
 	}
 	return nil, false
+}
+
+// calledFromProcess: fn is called by a Process(*LogNode) method of the tree (directly, or through one more helper).
+func calledFromProcess(p *core.Program, fn *ssa.Function, lnT types.Type) bool {
+	var up func(f *ssa.Function, depth int) bool
+	up = func(f *ssa.Function, depth int) bool {
+		n := p.CallGraph().Nodes[f]
+		if n == nil || depth > 2 {
+			return false
+		}
+		for _, e := range n.In {
+			cal := e.Caller.Func
+			if cal.Name() == "Process" && cal.Signature.Recv() != nil && len(cal.Params) == 2 {
+				if pt, ok := cal.Params[1].Type().(*types.Pointer); ok && types.Identical(pt.Elem(), lnT) {
+					return true
+				}
+			}
+			if cal != f && up(cal, depth+1) {
+				return true
+			}
+		}
+		return false
+	}
+	return up(fn, 0)
+}
+
+// madeError: v is an error made on the spot (fmt.Errorf, errors.New, a constructor of the tree), never nil.
+func madeError(v ssa.Value) bool {
+	switch t := v.(type) {
+	case *ssa.MakeInterface:
+		return true
+	case *ssa.Call:
+		if cal := core.Callee(&t.Call); cal != nil {
+			switch cal.String() {
+			case "fmt.Errorf", "errors.New":
+				return true
+			}
+		}
+	}
+	return false
+}
+
+// writesBeforeReturn: block b, which ends in the return, itself makes the call whose error result it returns — the
+// error is handed back untested (the block is entered on a condition that says nothing about that error).
+func writesBeforeReturn(b *ssa.BasicBlock) bool {
+	ret, ok := b.Instrs[len(b.Instrs)-1].(*ssa.Return)
+	if !ok || len(ret.Results) == 0 {
+		return false
+	}
+	res := ret.Results[len(ret.Results)-1]
+	if ext, isE := res.(*ssa.Extract); isE {
+		res = ext.Tuple
+	}
+	call, ok := res.(*ssa.Call)
+	return ok && call.Block() == b && isErrorType(ret.Results[len(ret.Results)-1].Type())
+}
+
+// ruleNoAmountSkips (C02-R10, shared): in the reporting code no iteration of a loop is cut short because of an
+// amount. Where a test on a floating-point value (a comparison, or a predicate of the tree that is handed one) has one
+// side that goes straight on to the next iteration and another side that does the iteration's work, rows and
+// contributions are dropped for some amounts — zero, tiny or negative ones — in this report only, while the other
+// renderings and reports still show them.
+func ruleNoAmountSkips(c *core.Ctx, rule string, inPkg func(string) bool) {
+	n, bad := 0, 0
+	isFloat := func(t types.Type) bool {
+		b, ok := t.Underlying().(*types.Basic)
+		return ok && b.Info()&types.IsFloat != 0
+	}
+	var amountTest func(v ssa.Value, depth int) bool
+	amountTest = func(v ssa.Value, depth int) bool {
+		if depth > 3 {
+			return false
+		}
+		switch t := v.(type) {
+		case *ssa.BinOp:
+			switch t.Op {
+			case token.LSS, token.LEQ, token.GTR, token.GEQ, token.EQL, token.NEQ:
+				return isFloat(t.X.Type()) || isFloat(t.Y.Type())
+			}
+		case *ssa.UnOp:
+			if t.Op == token.NOT {
+				return amountTest(t.X, depth+1)
+			}
+		case *ssa.Call:
+			cal := core.Callee(&t.Call)
+			if cal == nil || !c.P.InScope(cal) {
+				return false
+			}
+			if b, ok := t.Type().Underlying().(*types.Basic); !ok || b.Kind() != types.Bool {
+				return false
+			}
+			for _, a := range t.Call.Args {
+				if isFloat(a.Type()) {
+					return true
+				}
+			}
+		case *ssa.Phi:
+			// a && b, a || b
+			for _, e := range t.Edges {
+				if amountTest(e, depth+1) {
+					return true
+				}
+			}
+		}
+		return false
+	}
+	for _, fn := range c.P.Funcs {
+		if !inPkg(core.FnPkgPath(fn)) {
+			continue
+		}
+		for _, h := range fn.Blocks {
+			var latches []*ssa.BasicBlock
+			for _, p := range h.Preds {
+				if h.Dominates(p) {
+					latches = append(latches, p)
+				}
+			}
+			if len(latches) == 0 {
+				continue
+			}
+			body := map[*ssa.BasicBlock]bool{h: true}
+			work := append([]*ssa.BasicBlock(nil), latches...)
+			for len(work) > 0 {
+				b := work[len(work)-1]
+				work = work[:len(work)-1]
+				if body[b] {
+					continue
+				}
+				body[b] = true
+				work = append(work, b.Preds...)
+			}
+			// idle: the block only moves on to the next iteration (a jump, or the increment of the loop counter)
+			idle := func(b *ssa.BasicBlock) bool {
+				for i := 0; i < 3; i++ {
+					if b == h {
+						return true
+					}
+					if !body[b] || len(b.Succs) != 1 {
+						return false
+					}
+					for _, in := range b.Instrs {
+						switch t := in.(type) {
+						case *ssa.Jump, *ssa.DebugRef:
+						case *ssa.BinOp:
+							if _, isC := t.Y.(*ssa.Const); !isC || (t.Op != token.ADD && t.Op != token.SUB) || isFloat(t.Type()) {
+								return false
+							}
+						default:
+							return false
+						}
+					}
+					b = b.Succs[0]
+				}
+				return false
+			}
+			for b := range body {
+				iff, ok := b.Instrs[len(b.Instrs)-1].(*ssa.If)
+				if !ok || b == h || !amountTest(iff.Cond, 0) {
+					continue
+				}
+				n++
+				i0, i1 := idle(b.Succs[0]), idle(b.Succs[1])
+				if i0 == i1 {
+					continue
+				}
+				// the other side must do something that is seen outside the iteration: a call or a store
+				other := b.Succs[0]
+				if i0 {
+					other = b.Succs[1]
+				}
+				does := false
+				seen := map[*ssa.BasicBlock]bool{}
+				var walk func(x *ssa.BasicBlock, depth int)
+				walk = func(x *ssa.BasicBlock, depth int) {
+					if depth > 6 || seen[x] || !body[x] || x == h {
+						return
+					}
+					seen[x] = true
+					for _, in := range x.Instrs {
+						switch t := in.(type) {
+						case *ssa.Call:
+							if _, isB := t.Call.Value.(*ssa.Builtin); !isB || t.Call.Value.Name() == "append" {
+								does = true
+							}
+						case *ssa.Store, *ssa.MapUpdate:
+							does = true
+						}
+					}
+					for _, s := range x.Succs {
+						walk(s, depth+1)
+					}
+				}
+				walk(other, 0)
+				if !does {
+					continue
+				}
+				bad++
+				c.Violate(rule, core.FuncName(fn), "amount-skip", c.P.Pos(lastPos(b)), "an iteration over the rows is cut short depending on an amount: on one side of this test the loop goes straight on to the next item, on the other it does the item's work — rows or contributions are missing for some amounts (zero, tiny, negative) in this rendering only", nil)
+			}
+		}
+	}
+	if bad == 0 {
+		c.Discharge(rule, "reporting code", "amount-skip", "-", fmt.Sprintf("no loop iteration is cut short by a test on an amount (%d tests on amounts inside loops looked at)", n))
+	}
 }
